@@ -510,6 +510,11 @@ def narrowing_of_lengths(f, key, inst):
                 return hit
         return hit
 
+    def checked_pair(pl):
+        # `.0` of the (value, overflowed) pair of a checked arithmetic operation
+        return (len(pl["proj"]) == 1 and pl["proj"][0]["k"] == "field" and pl["proj"][0]["i"] == 0
+                and body["locals"][pl["local"]].startswith("(") and body["locals"][pl["local"]].endswith(", bool)"))
+
     changed = True
     rounds = 0
     while changed and rounds < 8:
@@ -533,7 +538,7 @@ def narrowing_of_lengths(f, key, inst):
                     pl = op.get("copy") or op.get("move")
                     if pl is None:
                         continue
-                    if (not pl["proj"] and pl["local"] in tainted) or place_is_counter(pl):
+                    if (pl["local"] in tainted and (not pl["proj"] or checked_pair(pl))) or place_is_counter(pl):
                         t_in = True
                 if t_in and dst not in tainted:
                     tainted.add(dst)
@@ -552,7 +557,7 @@ def narrowing_of_lengths(f, key, inst):
                 tf, tt = f.types[rv["from"]], f.types[rv["to"]]
                 if tf["kind"] == "int" and tt["kind"] == "int" and tt["bits"] < tf["bits"]:
                     pl = rv["op"].get("copy") or rv["op"].get("move")
-                    if pl is not None and ((not pl["proj"] and pl["local"] in tainted) or place_is_counter(pl)):
+                    if pl is not None and ((pl["local"] in tainted and (not pl["proj"] or checked_pair(pl))) or place_is_counter(pl)):
                         out.append("%s -> %s at line %s" % (rv["from"], rv["to"], st.get("line")))
     return out
 
